@@ -133,9 +133,9 @@ claim('C16',
       'Coq theorems. Tokenizer level, through the lexical specification (tokenize = lex 0 on every string): a whitespace character or a whole '
       '`//` comment in front of any text produces no token and only moves what follows; a comment running to the end of the file produces nothing; '
       'the same text further right gives the same tokens and the same lexical error, shifted. Whole pipeline (PositionsProofs.v): two sources with '
-      'the same token contents, the first syntactically valid, give for the same digest the same emitted text byte for byte, or the same error up '
-      'to positions — the parser, cst_to_ast, validate_ast, the automaton, the table and the emitter each commute with erasing every stored '
-      'position. Not proved: the same for syntax errors and the exact position map of a shifted error; invariance of the whole result is also '
+      'the same token contents give for the same digest the same emitted text byte for byte, or the same error up to positions (syntax errors '
+      'included: their text is the text of the offending token) — the parser, cst_to_ast, validate_ast, the automaton, the table and the emitter '
+      'each commute with erasing every stored position. Not proved: the exact position map of a shifted non-lexical error; invariance of the whole result is also '
       'decided per pair (source, random re-layout) on the crate, modulo hash line / position map.',
       COMMON_NOTE, 'Coq proof (lexical specification: gap and shift theorems; position-erasure commutes with every later stage) + metamorphic differential', 'DESIGN.md §5 C16')
 claim('C17',
